@@ -435,6 +435,7 @@ struct Stats {
     pairs: u64,
     equal_pairs: u64,
     neighbours: u64,
+    sorted_pools: u64,
     machine_runs: u64,
     prunes_some: u64,
     prunes_none: u64,
@@ -1196,6 +1197,49 @@ fn exec(plan: &Plan, mode: Mode, st: &mut Stats) -> Result<(), Viol> {
                 }
             }
         }
+        // No cycle anywhere in the pool: the comparison matrix of the first m values (one call
+        // per unordered pair; antisymmetry is check_c11_pair's business) must admit a linear
+        // arrangement. An insertion sort driven by the matrix produces one for every total
+        // preorder; if any pair of the arrangement is then out of order, `cmp` has a cycle
+        // (three values of three different types are enough — each pair alone looks fine).
+        {
+            use std::cmp::Ordering::*;
+            let mut mat = vec![vec![Equal; m]; m];
+            for i in 0..m {
+                for j in (i + 1)..m {
+                    let o = pool[i].value.cmp(&pool[j].value);
+                    mat[i][j] = o;
+                    mat[j][i] = o.reverse();
+                }
+            }
+            let mut order: Vec<usize> = Vec::with_capacity(m);
+            for i in 0..m {
+                let mut p = order.len();
+                while p > 0 && mat[order[p - 1]][i] == Greater {
+                    p -= 1;
+                }
+                order.insert(p, i);
+            }
+            st.sorted_pools += 1;
+            for p in 0..m {
+                for q in (p + 1)..m {
+                    if mat[order[p]][order[q]] == Greater {
+                        let (a, b) = (&pool[order[p]], &pool[order[q]]);
+                        return Err(viol(
+                            "C11-ord",
+                            "cmp-has-cycle",
+                            format!(
+                                "the pool cannot be arranged in a line: {} : {} sorts before {} : {} yet compares Greater",
+                                a.value,
+                                mt_to_string(&a.mt),
+                                b.value,
+                                mt_to_string(&b.mt)
+                            ),
+                        ));
+                    }
+                }
+            }
+        }
         for _ in 0..(m * 4) {
             if m < 3 {
                 break;
@@ -1554,6 +1598,7 @@ impl ValSim {
         out.count("pairs_compared", st.pairs);
         out.count("pairs_equal", st.equal_pairs);
         out.count("pairs_neighbour", st.neighbours);
+        out.count("pools_arranged_in_a_line", st.sorted_pools);
         out.count("prune_some", st.prunes_some);
         out.count("prune_none", st.prunes_none);
         out.count("prune_incompatible_target_but_pathwise_value", st.prunes_incompatible_but_some);
@@ -1594,7 +1639,7 @@ impl Engine for ValSim {
             self.property_id(),
             match self.0 {
                 Mode::C10 => "layout, accessors, decoders and prune against the algebraic model (never uses == on Value)",
-                Mode::C11 => "== / Hash / cmp on Value and Word against model equality, for every new value vs a clean constructor twin, three near neighbours (same type, compact encoding one bit edit away) and a pool sample, all pairs at the end, transitivity on sampled triples",
+                Mode::C11 => "== / Hash / cmp on Value and Word against model equality, for every new value vs a clean constructor twin, three near neighbours (same type, compact encoding one bit edit away) and a pool sample, all pairs at the end, no cycle of cmp in the final pool (matrix-driven sort, then every pair of the arrangement), transitivity on sampled triples",
             }
         )
     }
